@@ -309,8 +309,8 @@ type samGenOpts struct {
 	slashNames    bool
 	fixedRef      string // if set: use this reference (annotation properties)
 	fixedRefName  string
-	hugeEvery     int // if > 0: one case in hugeEvery gets a long reference with operators longer than typical buffer sizes
-	manyEvery     int // if > 0: one case in manyEvery has thousands of queries (copies of the generated ones under new names)
+	hugeEvery     int   // if > 0: one case in hugeEvery gets a long reference with operators longer than typical buffer sizes
+	manyEvery     int   // if > 0: one case in manyEvery has thousands of queries (copies of the generated ones under new names)
 	manyTargets   []int // record counts to choose from (default 300, 700, 4200, 4200, 8300)
 }
 
